@@ -103,9 +103,26 @@ let process line =
     let ifstr = match List.nth ifs p with Some m -> imap_str m | None -> "ASSERT" in
     let (s, t) = List.nth dec p in
     let se = Printf.sprintf "%s/%s/1" (ints (List.map int_of_nat (c05_selection fsrc s))) (ints (List.map int_of_nat (c05_selection fdst t))) in
+    let dtstr =
+      if not dt then "" else begin
+        let mk ph = let ds = List.mapi (fun p s -> mk_data ph p 0 s) szs in
+                    let dtt = if tc then List.mapi (fun p s -> mk_data ph p 1 s) szt else ds in (ds, dtt) in
+        let (ds3, dt3) = mk 3 in
+        let types = List.mapi (fun p rm -> match c05_dt_build fsrc fdst rm (List.nth ds3 p) (List.nth dt3 p) with Some t -> t | None -> []) rmaps in
+        let tstr t = join "," (fun (l, n) -> Printf.sprintf "%d.%d" (int_of_nat l) (int_of_nat n)) t in
+        let dts = join " " (fun (q, (st, rt)) -> Printf.sprintf "%d:%s/%s" (int_of_nat q) (tstr st) (tstr rt)) (List.nth types p) in
+        let orders = List.map (fun t -> List.map fst t) types in
+        let r3 = c05_dt_phase true types ds3 dt3 orders in
+        let (ds4, dt4) = mk 4 in
+        let r4 = c05_dt_phase false types dt4 ds4 orders in
+        let d3 = List.nth r3 p and d4 = List.nth r4 p in
+        Printf.sprintf " DT[%s] P3[D:%s T:%s] P4[D:%s T:%s]" dts
+          (data_str (if tc then List.nth ds3 p else d3)) (data_str d3)
+          (data_str d4) (data_str (if tc then List.nth dt4 p else d4))
+      end in
     let sw = c05_interface_build fdst fsrc rm in
     let eq = match List.nth ifs p, sw with Some a, Some b -> if c05_iface_eqb a b then 1 else 0 | _ -> 0 in
-    Printf.sprintf "r%d RI[%s] IF[%s] SE[%s] SD[1] EQ[1/%d/1/1/1] ST[1/1/1] %s" p ri ifstr se eq (join " " (fun phs -> List.nth phs p) phase_strs)) ranks in
+    Printf.sprintf "r%d RI[%s] IF[%s] SE[%s] SD[1] EQ[1/%d/1/1/1] ST[1/1/1] %s%s" p ri ifstr se eq (join " " (fun phs -> List.nth phs p) phase_strs) dtstr) ranks in
   (* spec, from the decomposition alone *)
   let fa = c05_contains fsrc and ft = c05_contains fdst in
   let spec = join " ;; " (fun p ->
